@@ -187,6 +187,9 @@ func (b *assignmentBuilder) structFieldAndStructGettersAndFields(
 				logger.Printf("%v: assignment found: sliceCopy(%v, %v)", methodPosStr, lhsExpr, rhs.AssignExpr())
 				return true
 			}
+			// A slice that cannot be copied is not assigned as a whole either:
+			// it would share its elements with the source.
+			return
 		}
 
 		// A struct with a notation on one of its members is copied member by member.
@@ -430,7 +433,7 @@ func (b *assignmentBuilder) castNode(lhsType types.Type, rhs bmodel.Node) (c bmo
 		return b.castNode(lhsType, bmodel.NewStringer(rhs))
 	}
 
-	if b.opts.Typecast && types.ConvertibleTo(rhs.ExprType(), lhsType) {
+	if b.opts.Typecast && types.ConvertibleTo(rhs.ExprType(), lhsType) && b.canName(lhsType) {
 		c, ok = bmodel.NewTypecast(b.pkg.Types.Scope(), b.imports, lhsType, rhs)
 		if !ok {
 			logger.Warnf("%v: typecast for %v is not implemented(yet) for %v",
@@ -452,6 +455,24 @@ func (b *assignmentBuilder) isStructFieldAccessible(structNode bmodel.Node, leaf
 	}
 	return true
 
+}
+
+// canName reports whether the generated code can write down the given type:
+// a defined type of another package has to be exported for that.
+func (b *assignmentBuilder) canName(t types.Type) bool {
+	switch typ := t.(type) {
+	case *types.Pointer:
+		return b.canName(typ.Elem())
+	case *types.Slice:
+		return b.canName(typ.Elem())
+	case *types.Array:
+		return b.canName(typ.Elem())
+	case *types.Map:
+		return b.canName(typ.Key()) && b.canName(typ.Elem())
+	case *types.Named:
+		return !b.isExternalPkg(typ.Obj().Pkg()) || typ.Obj().Exported()
+	}
+	return true
 }
 
 // isExternalPkg returns true if the given package is not the current package.
@@ -611,6 +632,11 @@ func (b *assignmentBuilder) sliceToSlice(lhs, rhs bmodel.Node) (a gmodel.Assignm
 	lhsElem := util.SliceElement(lhs.ExprType())
 	rhsElem := util.SliceElement(rhs.ExprType())
 	if lhsElem == nil || rhsElem == nil {
+		return
+	}
+
+	// Every form below spells out the element type of the destination.
+	if !b.canName(lhsElem) {
 		return
 	}
 
